@@ -6,6 +6,7 @@ CONSTANTS
     Focus = TRUE
     OnlyInvolutive = FALSE
     DistAll = FALSE
+    Dists = {1, 2, 3, 4}
     LinMode = "pinned"
     EmitOn = FALSE
 INIT Init
